@@ -232,7 +232,7 @@ func checkReads(m *model, c cfgT, get func(root []byte, keys [][]byte) [][]byte,
 				return fmt.Sprintf("committed root %x: key %q reads %q, the content committed there has %q (present=%v)", r, keys[i], got, w, ok)
 			}
 		}
-		if iterate != nil {
+		if iterate != nil && os.Getenv("DBG_NOITER") == "" {
 			var exp [][2]string
 			for k, v := range want {
 				exp = append(exp, [2]string{k, v})
@@ -250,6 +250,9 @@ func checkReads(m *model, c cfgT, get func(root []byte, keys [][]byte) [][]byte,
 	sort.Strings(dead)
 	for _, r := range dead {
 		d := m.dead[r]
+		if os.Getenv("DBG_NOPROBE") != "" {
+			continue
+		}
 		if c.MemTree && !d.cold {
 			continue // may still be served by the in-memory node cache; that is not committed state
 		}
